@@ -1,5 +1,6 @@
 import BHS.Props.C10
 import BHS.Props.AuthMw
+import BHS.Props.TokenStore
 open BHS.Props.C10
 #print axioms C10_auth_iff
 #print axioms C10_http
@@ -26,3 +27,12 @@ open BHS.Props.C10
 #print axioms BHS.Props.AuthMw.C10_auth_iff_generated
 #print axioms BHS.Props.AuthMw.C10_ws_generated
 #print axioms BHS.Props.AuthMw.C10_rejected_generated
+#print axioms BHS.Props.TokenStore.token_lookup_sound
+#print axioms BHS.Props.TokenStore.new_service_writes_nothing
+#print axioms BHS.Props.TokenStore.delete_exact
+#print axioms BHS.Props.TokenStore.generate_exact
+#print axioms BHS.Props.TokenStore.revoked_token_refused
+#print axioms BHS.Props.TokenStore.C10_steps_generated
+#print axioms BHS.Props.TokenStore.C10_auth_iff_composed
+#print axioms BHS.Props.TokenStore.ws_fail_closed
+#print axioms BHS.Props.TokenStore.driver_crosscheck
